@@ -324,6 +324,43 @@ func RuleListen(r *Report, p *Program) {
 				bad5 = "listen does not return nil after an orderly shutdown"
 			}
 		}
+		// the result must not be something the datagram handler can write: the handler runs on the driver's
+		// goroutine for every datagram, so a variable of the listen function that it assigns (a named result, a
+		// shared err) makes the value returned after an orderly shutdown depend on the last datagram
+		if handler.Parent() != nil {
+			for i, fv := range handler.FreeVars {
+				written := false
+				for _, b := range handler.Blocks {
+					for _, in := range b.Instrs {
+						if st, ok := in.(*ssa.Store); ok && rootOf(st.Addr) == ssa.Value(fv) {
+							written = true
+						}
+					}
+				}
+				if !written {
+					continue
+				}
+				// the variable in the parent: read there (returned, tested) after the handler exists?
+				for _, mc := range closuresOf(handler.Parent()) {
+					if mc.Fn != ssa.Value(handler) || i >= len(mc.Bindings) {
+						continue
+					}
+					al, ok := mc.Bindings[i].(*ssa.Alloc)
+					if !ok || al.Referrers() == nil {
+						continue
+					}
+					for _, ref := range *al.Referrers() {
+						if ld, ok := ref.(*ssa.UnOp); ok && ld.Op.String() == "*" && ld.Referrers() != nil {
+							for _, use := range *ld.Referrers() {
+								if _, isRet := use.(*ssa.Return); isRet {
+									bad5 = "the value " + calleeName(handler.Parent()) + " returns is the variable '" + fv.Name() + "' which the datagram handler assigns: after an orderly shutdown the result is the outcome of the last datagram, not nil"
+								}
+							}
+						}
+					}
+				}
+			}
+		}
 		r.Check(bad4 == "" && nOK >= 1, "LS4", calleeName(inner), p.Pos(inner.Pos()), "connected once, after bind", bad4)
 		r.Check(bad5 == "" && nOK >= 1, "LS5", calleeName(inner), p.Pos(inner.Pos()), "signal -> await -> return nil", bad5)
 	}
